@@ -157,6 +157,15 @@ fn body<const B: usize, const L: usize>(c: &Case, rec: &mut Rec) -> R {
     rec.eq("rem", &r, &r_exp)?;
     let r = rec.no_panic("div_assign", catch(|| { let mut x = n; x /= d; x }))?;
     rec.eq("div_assign", &r, &q_exp)?;
+    // the reference-operand shapes of / and % are separate impls
+    chk!(rec, "div(&,val)", &n / d, q_exp);
+    chk!(rec, "div(val,&)", n / &d, q_exp);
+    chk!(rec, "div(&,&)", &n / &d, q_exp);
+    chk!(rec, "div_assign(&)", { let mut x = n; x /= &d; x }, q_exp);
+    chk!(rec, "rem(&,val)", &n % d, r_exp);
+    chk!(rec, "rem(val,&)", n % &d, r_exp);
+    chk!(rec, "rem(&,&)", &n % &d, r_exp);
+    chk!(rec, "rem_assign(&)", { let mut x = n; x %= &d; x }, r_exp);
     let r = rec.no_panic("rem_assign", catch(|| { let mut x = n; x %= d; x }))?;
     rec.eq("rem_assign", &r, &r_exp)?;
     let r = rec.no_panic("wrapping_div", catch(|| n.wrapping_div(d)))?;
@@ -193,7 +202,7 @@ fn body<const B: usize, const L: usize>(c: &Case, rec: &mut Rec) -> R {
 fn main() {
     let spec = PropSpec {
         id: "C03",
-        rule_text: "cases (n,d) per width from 7 generator classes (divisors whose normalised leading 128 bits are solved onto the tie of the 3-by-2 reciprocal's last correction step, with limb-aligned power-of-two numerators; n = d + {-1,0,1} and the largest multiple of d that fits + {-1,0,1}; independent alphabet values; divisors of every limb length with 0..63 leading zero bits; n=q*d+r built from extreme q,d,r; numerators copying the divisor's top limbs with perturbed lower limbs; d=0) plus exhaustive enumeration of all pairs for BITS<=8. Oracle: num-bigint quotient/remainder. Non-trivial: d!=0, quotient!=0 and d not a power of two; distinct by (rule,width,n,d).",
+        rule_text: "cases (n,d) per width from 7 generator classes (divisors whose normalised leading 128 bits are solved onto the tie of the 3-by-2 reciprocal's last correction step, with limb-aligned power-of-two numerators; n = d + {-1,0,1} and the largest multiple of d that fits + {-1,0,1}; independent alphabet values; divisors of every limb length with 0..63 leading zero bits; n=q*d+r built from extreme q,d,r; numerators copying the divisor's top limbs with perturbed lower limbs; d=0) plus exhaustive enumeration of all pairs for BITS<=8. / and % through all six operator shapes. Oracle: num-bigint quotient/remainder. Non-trivial: d!=0, quotient!=0 and d not a power of two; distinct by (rule,width,n,d).",
         assumptions: vec![
             "num-bigint division is correct (oracle)",
             "x86-64 little-endian target only",
